@@ -68,6 +68,7 @@ struct LoopFinder {
     loops: Vec<(usize, usize, usize)>, // (expr start, body open brace, expr end)
     closures: usize,
     vd: Vec<String>, // desugaring candidates (closed list, DESIGN.md 2.1b)
+    self_calls: Vec<String>, // `self.name(args)` method calls (for D9: inlining of single-expression helpers)
 }
 impl<'ast> Visit<'ast> for LoopFinder {
     fn visit_expr_while(&mut self, e: &'ast syn::ExprWhile) {
@@ -108,6 +109,16 @@ impl<'ast> Visit<'ast> for LoopFinder {
         syn::visit::visit_expr_call(self, e);
     }
     fn visit_expr_method_call(&mut self, e: &'ast syn::ExprMethodCall) {
+        if let syn::Expr::Path(rp) = &*e.receiver {
+            if rp.path.is_ident("self") {
+                let call = e.span().byte_range();
+                let args: Vec<String> = e.args.iter().map(|a| { let r = a.span().byte_range(); format!("[{},{}]", r.start, r.end) }).collect();
+                self.self_calls.push(format!(
+                    "{{\"name\":\"{}\",\"call\":[{},{}],\"args\":[{}]}}",
+                    e.method, call.start, call.end, args.join(",")
+                ));
+            }
+        }
         // D7: RECV.map_err(|_| { STMTS; TAIL })   (closure ignores its argument, body has no return/break/continue/?)
         if e.method == "map_err" && e.args.len() == 1 {
             if let syn::Expr::Closure(c) = &e.args[0] {
@@ -257,6 +268,31 @@ impl Out {
         }
         j.push(']');
         let _ = write!(j, ",\"vd\":[{}]", lf.vd.join(","));
+        let _ = write!(j, ",\"self_calls\":[{}]", lf.self_calls.join(","));
+        if let Some(b) = block {
+            if b.stmts.len() == 1 {
+                if let syn::Stmt::Expr(ex, None) = &b.stmts[0] {
+                    let mut ef = EscapeFinder::default();
+                    ef.visit_expr(ex);
+                    let mut params: Vec<String> = vec![];
+                    let mut simple = ef.escapes == 0;
+                    let mut has_ref_self = false;
+                    for inp in sig.inputs.iter() {
+                        match inp {
+                            syn::FnArg::Receiver(r) => { has_ref_self = r.reference.is_some() && r.mutability.is_none(); }
+                            syn::FnArg::Typed(pt) => {
+                                if let syn::Pat::Ident(pi) = &*pt.pat { params.push(pi.ident.to_string()); } else { simple = false; }
+                            }
+                        }
+                    }
+                    if simple && has_ref_self && sig.generics.params.is_empty() {
+                        let r = ex.span().byte_range();
+                        let ps: Vec<String> = params.iter().map(|p| format!("\"{}\"", p)).collect();
+                        let _ = write!(j, ",\"single_expr\":[{},{}],\"params\":[{}]", r.start, r.end, ps.join(","));
+                    }
+                }
+            }
+        }
         if let Some((hs, he, ce)) = container {
             let _ = write!(j, ",\"container\":[{},{},{}]", hs, he, ce);
         }
